@@ -535,4 +535,60 @@ theorem loopIdxSel_oob (cfg : Cfg) (n : Nat) (vals : List Int) (mul off : Int)
       exact ⟨v, hv, rfl⟩
 
 
+theorem arange_eq_upRange (k e : Int) (st : Nat) (hs : 0 < st) : arange k (e + 1) st = upRange k st e := by
+  unfold arange upRange
+  have h : (e + 1 - k + (st : Int) - 1) = (e - k) + 1 * (st : Int) := by omega
+  rw [h, Int.add_mul_ediv_right _ _ (by omega : (st : Int) ≠ 0)]
+
+theorem IntS.litVal_val (a : IntS) (k : Nat) (h : a.litVal = some k) : a.val = (k : Int) := by
+  cases a <;> simp [IntS.litVal] at h <;> simp [IntS.val, h]
+
+theorem NatS.litVal_val (a : NatS) (k : Nat) (h : a.litVal = some k) : a.val = (k : Int) := by
+  cases a <;> simp [NatS.litVal] at h <;> simp [NatS.val, NatS.toIntS, IntS.val, h]
+
+theorem loopValues_checked (r : LoopRange) (vals : List Int) (h : loopValues Cfg.checked r = some vals) :
+    r.denote = some vals := by
+  cases r with
+  | two a b =>
+    simp only [loopValues] at h
+    cases ha : a.litVal with
+    | none => simp [ha] at h
+    | some k =>
+      cases hb : b.eval with
+      | none => simp [ha, hb] at h
+      | some e =>
+        simp only [ha, hb, Option.some.injEq] at h
+        subst h
+        simp only [LoopRange.denote, IntS.litVal_val a k ha, IntS.eval_val b e hb]
+        rw [arange_eq_upRange _ _ 1 (by omega)]
+  | three a b c =>
+    simp only [loopValues, Cfg.checked, if_true] at h
+    cases ha : a.litVal with
+    | none => simp [ha] at h
+    | some k =>
+      cases hb : b.litVal with
+      | none => simp [ha, hb] at h
+      | some st =>
+        cases hc : c.eval with
+        | none => simp [ha, hb, hc] at h
+        | some e =>
+          simp only [ha, hb, hc] at h
+          by_cases hz : st = 0
+          · simp [hz] at h
+          · simp only [hz, if_false, Option.some.injEq] at h
+            subst h
+            simp only [LoopRange.denote, mRange, IntS.litVal_val a k ha, NatS.litVal_val b st hb,
+              NatS.eval_val c e hc]
+            have h1 : ¬ ((st : Int) = 0) := by omega
+            have h2 : (0 : Int) < (st : Int) := by omega
+            rw [if_neg h1, if_pos h2, Int.toNat_natCast, arange_eq_upRange _ _ st (by omega)]
+
+
+theorem checked_safe (s : FSub) : Safe Cfg.checked s := by
+  cases s with
+  | idx k => trivial
+  | all => trivial
+  | range lo hi => exact Or.inl rfl
+  | range3 a b c => exact ⟨rfl, Or.inl rfl⟩
+
 end PymocaVerif.Index
